@@ -306,6 +306,14 @@ func (ss schedsim) runInBubble(c *Case, dir string, out *Outcome) {
 				}
 			}
 			m.probes["writes-monitored"]++
+			nviol := len(m.viol)
+			defer func() {
+				if len(m.viol) > nviol && m.s.InTask() {
+					// the write has not happened yet: the writing task stops here, so that no reader is left
+					// walking a tree that is being overwritten (that shows up as a run that never ends)
+					panic(stopRun{})
+				}
+			}()
 			check(m.newest, "the newest committed version")
 			for id, cnt := range m.readersOpen {
 				if cnt > 0 && id != m.newest {
